@@ -27,21 +27,25 @@ static int read_cb(jwt_t *jwt, jwt_config_t *cfg)
 	(void)cfg;
 	cb_calls++;
 	jwt_set_GET_JSON(&v, NULL);
-	if (jwt_header_get(jwt, &v) == JWT_VALUE_ERR_NONE) free(v.json_val);
+	if (jwt_header_get(jwt, &v) == JWT_VALUE_ERR_NONE) vh_lib_free(v.json_val);
 	jwt_set_GET_JSON(&v, NULL);
 	v.pretty = 1;
-	if (jwt_claim_get(jwt, &v) == JWT_VALUE_ERR_NONE) free(v.json_val);
+	if (jwt_claim_get(jwt, &v) == JWT_VALUE_ERR_NONE) vh_lib_free(v.json_val);
 	jwt_set_GET_STR(&v, "kid"); jwt_header_get(jwt, &v);
 	jwt_set_GET_STR(&v, "alg"); jwt_header_get(jwt, &v);
 	jwt_set_GET_INT(&v, "exp"); jwt_claim_get(jwt, &v);
 	jwt_set_GET_BOOL(&v, "admin"); jwt_claim_get(jwt, &v);
-	jwt_set_GET_JSON(&v, "nested"); if (jwt_claim_get(jwt, &v) == JWT_VALUE_ERR_NONE) free(v.json_val);
+	jwt_set_GET_JSON(&v, "nested"); if (jwt_claim_get(jwt, &v) == JWT_VALUE_ERR_NONE) vh_lib_free(v.json_val);
 	(void)jwt_get_alg(jwt);
 	return 0;
 }
 
 static void setup(uint64_t seed)
 {
+	/* the application's own allocator (jwt_set_alloc): every block it hands out during a verification has to come back through it */
+#ifndef VH_FUZZ_MAIN
+	vh_alloc_install();	/* (the fuzz target runs without it: its budget is executions per second) */
+#endif
 	vh_rng_seed(&rng, seed, 4242);
 	for (int i = 0; i < NKEYS; i++)
 		if (vh_key_gen(&K[i], KSPEC[i], &rng)) vh_harness_fail("keygen");
@@ -75,6 +79,7 @@ static unsigned run_token(const char *tok, int log_all, int cls)
 	size_t n = strlen(tok);
 	char *copy = malloc(n + 1);	/* exact-size heap copy so ASan sees over-reads */
 	memcpy(copy, tok, n + 1);
+	long live0 = vh_alloc_live();
 	n_tokens++;
 	for (int i = 0; i < NCHK; i++) {
 		int rc;
@@ -87,6 +92,9 @@ static unsigned run_token(const char *tok, int log_all, int cls)
 		else if (!jwt_checker_error_msg(CHK[i])[0]) mask |= 1u << 30;
 		jwt_checker_error_clear(CHK[i]);
 	}
+	/* whether accepted or refused, a verification keeps nothing: what it took from the installed allocator is back (the first tokens may
+	 * leave lazily created state behind) */
+	if (n_tokens > 3) vh_alloc_leak(live0, "the verification of one token by every checker");
 	if (mask || log_all || (n_tokens % 499) == 0) {
 		printf("[\"T\",%d,%u,", cls, mask);
 		vh_put_hex(stdout, copy, n);
